@@ -58,36 +58,79 @@ package auth
 //@           j < len(s) && (p[i] == '?' || p[i] == s[j]) && specGlob(p, s, i + 1, j + 1)))
 
 // a star absorbs any run: from a match of the rest at k it follows that the star matches from j <= k
-//@ lemma starAbsorbs0(p string, s string, i int, j int, k int) {C14} \
+//@ lemma starAbsorbs0(p string, s string, i int, j int, k int) {C14,C03} \
 //@     requires 0 <= i && i < len(p) && p[i] == '*' && 0 <= j && j <= k && k <= len(s) && specGlob(p, s, i + 1, k) \
-//@     ensures specGlob(p, s, i, j) induction k - j
+//@     ensures specGlob(p, s, i, j) induction k - j trigger specGlob(p, s, i + 1, k), specGlob(p, s, i, j)
 // the same fact in a form whose instances the solver finds by matching
-//@ lemma starAbsorbs(p string, s string, i int, i1 int, j int, k int) {C14} \
+//@ lemma starAbsorbs(p string, s string, i int, i1 int, j int, k int) {C14,C03} \
 //@     requires i1 == i + 1 && 0 <= i && i < len(p) && p[i] == '*' && 0 <= j && j <= k && k <= len(s) && specGlob(p, s, i1, k) \
 //@     ensures specGlob(p, s, i, j) trigger specGlob(p, s, i1, k), specGlob(p, s, i, j)
 
 // completeness needs two more facts about the specification
-//@ lemma starUnfold(p string, s string, i int, j int) {C14} \
+//@ lemma starUnfold(p string, s string, i int, j int) {C14,C03} \
 //@     requires 0 <= i && i < len(p) && p[i] == '*' && 0 <= j && j <= len(s) && specGlob(p, s, i, j) \
 //@     ensures exists k int :: j <= k && k <= len(s) && specGlob(p, s, i + 1, k) induction len(s) - j
 //@ ghost func starFree(p string, a int, b int) bool = a >= b || (p[a] != '*' && starFree(p, a + 1, b))
-//@ lemma starFreeExtend(p string, a int, b int) {C14} \
+//@ lemma starFreeExtend(p string, a int, b int) {C14,C03} \
 //@     requires 0 <= a && a <= b && b < len(p) && starFree(p, a, b) && p[b] != '*' \
 //@     ensures starFree(p, a, b + 1) induction b - a
-//@ lemma segmentConsumes(p string, s string, a int, b int, k int) {C14} \
+//@ lemma segmentConsumes(p string, s string, a int, b int, k int) {C14,C03} \
 //@     requires 0 <= a && a <= b && b <= len(p) && starFree(p, a, b) && 0 <= k && k <= len(s) && specGlob(p, s, a, k) \
 //@     ensures k + (b - a) <= len(s) && specGlob(p, s, b, k + (b - a)) induction b - a
 
 //@ func (Resources) Match
-//@   ensures {C14} [glob-complete] specGlob(pattern, input, 0, 0) ==> ret0
-//@   loop 1 invariant {C14} [segment] starIdx >= 0 ==> sIdx - matchIdx == pIdx - starIdx - 1 && starFree(pattern, starIdx + 1, pIdx)
-//@   loop 1 invariant {C14} [complete] specGlob(pattern, input, 0, 0) ==> specGlob(pattern, input, pIdx, sIdx) || (starIdx >= 0 && (exists k int :: matchIdx < k && k <= len(input) && specGlob(pattern, input, starIdx + 1, k)))
-//@   loop 2 invariant {C14} [complete-tail] specGlob(pattern, input, 0, 0) ==> specGlob(pattern, input, pIdx, len(input))
-//@   ensures {C14} [glob-sound] ret0 ==> specGlob(pattern, input, 0, 0)
-//@   loop 1 invariant {C14} [bounds] 0 <= pIdx && pIdx <= len(pattern) && 0 <= sIdx && sIdx <= len(input) && -1 <= starIdx && starIdx < pIdx && 0 <= matchIdx && matchIdx <= sIdx
-//@   loop 1 invariant {C14} [suffix-match-suffices] specGlob(pattern, input, pIdx, sIdx) ==> specGlob(pattern, input, 0, 0)
-//@   loop 1 invariant {C14} [star-retry-suffices] starIdx >= 0 ==> pattern[starIdx] == '*' && (forall k int :: matchIdx <= k && k <= len(input) && specGlob(pattern, input, starIdx + 1, k) ==> specGlob(pattern, input, 0, 0))
-//@   loop 1 invariant {C14} [no-star-no-retry] starIdx == -1 ==> matchIdx == 0
-//@   loop 1 decreases {C14} len(input) - matchIdx, (len(pattern) - pIdx) + (len(input) - sIdx)
-//@   loop 2 invariant {C14} [tail] 0 <= pIdx && pIdx <= len(pattern) && (specGlob(pattern, input, pIdx, len(input)) ==> specGlob(pattern, input, 0, 0))
-//@   loop 2 decreases {C14} len(pattern) - pIdx
+//@   ensures {C14,C03} [glob-complete] specGlob(pattern, input, 0, 0) ==> ret0
+//@   loop 1 invariant {C14,C03} [segment] starIdx >= 0 ==> sIdx - matchIdx == pIdx - starIdx - 1 && starFree(pattern, starIdx + 1, pIdx)
+//@   loop 1 invariant {C14,C03} [complete] specGlob(pattern, input, 0, 0) ==> specGlob(pattern, input, pIdx, sIdx) || (starIdx >= 0 && (exists k int :: matchIdx < k && k <= len(input) && specGlob(pattern, input, starIdx + 1, k)))
+//@   loop 2 invariant {C14,C03} [complete-tail] specGlob(pattern, input, 0, 0) ==> specGlob(pattern, input, pIdx, len(input))
+//@   ensures {C14,C03} [glob-sound] ret0 ==> specGlob(pattern, input, 0, 0)
+//@   loop 1 invariant {C14,C03} [bounds] 0 <= pIdx && pIdx <= len(pattern) && 0 <= sIdx && sIdx <= len(input) && -1 <= starIdx && starIdx < pIdx && 0 <= matchIdx && matchIdx <= sIdx
+//@   loop 1 invariant {C14,C03} [suffix-match-suffices] specGlob(pattern, input, pIdx, sIdx) ==> specGlob(pattern, input, 0, 0)
+//@   loop 1 invariant {C14,C03} [star-retry-suffices] starIdx >= 0 ==> pattern[starIdx] == '*' && (forall k int :: matchIdx <= k && k <= len(input) && specGlob(pattern, input, starIdx + 1, k) ==> specGlob(pattern, input, 0, 0))
+//@   loop 1 invariant {C14,C03} [no-star-no-retry] starIdx == -1 ==> matchIdx == 0
+//@   loop 1 decreases {C14,C03} len(input) - matchIdx, (len(pattern) - pIdx) + (len(input) - sIdx)
+//@   loop 2 invariant {C14,C03} [tail] 0 <= pIdx && pIdx <= len(pattern) && (specGlob(pattern, input, pIdx, len(input)) ==> specGlob(pattern, input, 0, 0))
+//@   loop 2 decreases {C14,C03} len(pattern) - pIdx
+
+// ---- C14 / C03: the evaluation chain from one statement up to the policy -----------
+// Each function is a deterministic function of its arguments (maps and statement values are
+// not modified by evaluation), so callers may name its result; its meaning is fixed by the
+// ensures clauses, which are proved on its body.
+
+//@ func (Resources) Match
+//@   pure
+
+//@ func (Principals) Contains
+//@   pure
+//@   ensures {C14,C03} [exact-or-star] ret0 <==> (in("*", p) || in(userAccess, p))
+
+//@ func (Action) WildCardMatch
+//@   pure
+//@   ensures {C14,C03} [trailing-star-prefix] ret0 <==> (strings.HasSuffix(a, "*") && strings.HasPrefix(act, strings.TrimSuffix(a, "*")))
+
+//@ func (Actions) FindMatch
+//@   pure
+//@   let wildcardHit = exists k Action :: in(k, a) && strings.HasSuffix(k, "*") && strings.HasPrefix(action, strings.TrimSuffix(k, "*"))
+//@   ensures {C14,C03} [sound] ret0 ==> in(AllActions, a) || in(action, a) || wildcardHit
+//@   ensures {C14,C03} [complete] in(AllActions, a) || in(action, a) || wildcardHit ==> ret0
+//@   loop 1 invariant {C14,C03} [visited-none-match] forall k Action :: visited(a, k) ==> !(strings.HasSuffix(k, "*") && strings.HasPrefix(action, strings.TrimSuffix(k, "*")))
+
+//@ func (Resources) FindMatch
+//@   pure
+//@   ensures {C14,C03} [sound] ret0 ==> (exists k string :: in(k, r) && specGlob(k, resource, 0, 0))
+//@   ensures {C14,C03} [complete] (exists k string :: in(k, r) && specGlob(k, resource, 0, 0)) ==> ret0
+//@   loop 1 invariant {C14,C03} [visited-none-match] forall k string :: visited(r, k) ==> !specGlob(k, resource, 0, 0)
+
+//@ func (BucketPolicyItem) findMatch
+//@   pure
+//@   ensures {C14,C03} [principal-action-resource] ret0 <==> (bpi.Principals.Contains(principal) && bpi.Actions.FindMatch(action) && bpi.Resources.FindMatch(resource))
+
+//@ func (BucketPolicy) isAllowed
+//@   let hit = bp.Statement[j].findMatch(principal, action, resource)
+//@   ensures {C14,C03} [allow-needs-a-matching-allow] ret0 ==> (exists j int :: 0 <= j && j < len(bp.Statement) && hit && bp.Statement[j].Effect == BucketPolicyAccessTypeAllow)
+//@   ensures {C14,C03} [deny-overrides] (exists j int :: 0 <= j && j < len(bp.Statement) && hit && bp.Statement[j].Effect == BucketPolicyAccessTypeDeny) ==> !ret0
+//@   ensures {C14,C03} [allow-without-deny-allows] (exists j int :: 0 <= j && j < len(bp.Statement) && hit && bp.Statement[j].Effect == BucketPolicyAccessTypeAllow) \
+//@        && !(exists j int :: 0 <= j && j < len(bp.Statement) && hit && bp.Statement[j].Effect == BucketPolicyAccessTypeDeny) ==> ret0
+//@   loop 1 invariant {C14,C03} [bounds] -1 <= rangeindex && rangeindex < len(bp.Statement)
+//@   loop 1 invariant {C14,C03} [allowed-iff-allow-seen] isAllowed <==> (exists j int :: 0 <= j && j <= rangeindex && hit && bp.Statement[j].Effect == BucketPolicyAccessTypeAllow)
+//@   loop 1 invariant {C14,C03} [no-deny-seen] forall j int :: 0 <= j && j <= rangeindex ==> !(hit && bp.Statement[j].Effect == BucketPolicyAccessTypeDeny)
